@@ -46,10 +46,24 @@ impl UvMapping {
     ///
     /// returns: Option<(usize, [f64; 3])>
     pub fn triangle(&self, point: &Point2) -> Option<(usize, [f64; 3])> {
+        // The triangles are solid in the UV plane: a point inside one projects onto itself. (With
+        // a non-solid projection it would be moved to the nearest edge of its triangle.)
         let result = self
             .tri_map
-            .project_local_point_and_get_location(point, false);
-        let (_, (t_id, loc)) = result;
-        Some((t_id as usize, loc.barycentric_coordinates().unwrap()))
+            .project_local_point_and_get_location(point, true);
+        let (prj, (t_id, _)) = result;
+
+        // Barycentric coordinates of the projected point in its triangle
+        let tri = self.tri_map.triangle(t_id);
+        let v0 = tri.b - tri.a;
+        let v1 = tri.c - tri.a;
+        let v2 = prj.point - tri.a;
+        let den = v0.x * v1.y - v0.y * v1.x;
+        if den == 0.0 {
+            return None;
+        }
+        let b1 = (v2.x * v1.y - v2.y * v1.x) / den;
+        let b2 = (v0.x * v2.y - v0.y * v2.x) / den;
+        Some((t_id as usize, [1.0 - b1 - b2, b1, b2]))
     }
 }
